@@ -559,6 +559,14 @@ def multigrid(model, sfield, efield, var, **kwargs):
     # Start the actual (recursive) multigrid cycle.
     while level == 0 or (level > 0 and it < cycmax):
 
+        # On the original grid, cycmax has to be re-evaluated for each cycle,
+        # as the coarsest level changes if semicoarsening cycles (sc_dir).
+        if level == 0 and it > 0:
+            if level == var.clevel[var.sc_dir]:
+                cycmax = 1
+            else:
+                cycmax = var.cycmax
+
         # Store errors for comparisons (previous and previous of same cycle).
         l2_prev = l2_last
         l2_stag[(it-1) % var.maxcycle] = l2_last
